@@ -38,7 +38,7 @@ var lanes = map[string][]laneCfg{
 		{Name: "stub-norace", Worker: "stub", QuickRuns: 256000, Chunk: 2000, Offset: 1 << 32, Share: 1},
 	},
 	"C19": {
-		{Name: "race", Race: true, Worker: "stub", QuickRuns: 32000, Chunk: 500, Share: 8},
+		{Name: "race", Race: true, Worker: "stub", QuickRuns: 96000, Chunk: 500, Share: 8},
 		{Name: "race-fresh-process", Race: true, Worker: "stub", QuickRuns: 1280, Chunk: 40, Offset: 1 << 33, Share: 1, Isolate: true},
 	},
 }
